@@ -32,6 +32,8 @@ from __future__ import annotations
 
 import gc
 import linecache
+import os
+import time
 from collections import Counter
 from fractions import Fraction
 
@@ -355,8 +357,11 @@ class Judge:
                           'exit': self.exit}, detail))
 
     # -- array sizes -----------------------------------------------------
-    def size(self, bound, v, where: str, node: str, fact: str, text: str):
+    def size(self, bound, v, where: str, node: str, fact: str, text):
+        """`text` is a string or an AST node (formatted only when needed)"""
         self.counts['cmp_size'] += 1
+        if not isinstance(text, str) and (isinstance(bound, (ListSize, TupleSize))):
+            text = _Lazy(text)
         if isinstance(bound, ListSize):
             if not isinstance(v, list):
                 self.bad('ArraySize', fact, node, 'shape', f'{where} `{text}`: reported {bound}, value {show(v)} is not a list')
@@ -409,7 +414,7 @@ class Judge:
             self.counts['cmp_const'] += 1
             diff = same_const(f.pe.by_def[d], snap)
             if diff is not None:
-                self.bad('PartialEval', 'by_def', kind, diff,
+                self.bad('PartialEval', 'by_def', kind, self.const_why(diff, v),
                          f'{how} `{name}`: reported constant {show(f.pe.by_def[d])}, value {show(snap)}')
         if isinstance(v, list) and f.al is not None:
             hs = self.holders.get(id(v))
@@ -441,10 +446,32 @@ class Judge:
         return d
 
     # -- one execution ---------------------------------------------------
+    def touch(self, v):
+        """remember every list reachable from a list that an element store went through"""
+        if isinstance(v, list):
+            if id(v) not in self.stored:
+                self.stored[id(v)] = v
+                for x in v:
+                    self.touch(x)
+        elif isinstance(v, tuple):
+            for x in v:
+                self.touch(x)
+
+    def touched(self, v) -> bool:
+        if isinstance(v, list):
+            return id(v) in self.stored or any(self.touched(x) for x in v)
+        if isinstance(v, tuple):
+            return any(self.touched(x) for x in v)
+        return False
+
+    def const_why(self, diff: str, v) -> str:
+        return 'stale-after-store' if diff == 'value' and self.touched(v) else diff
+
     def run(self, act):
         f = self.f
         self.sizevars: dict = {}
         self.holders: dict = {}
+        self.stored: dict = {}
         code = act.code
         # did this execution leave through a nested `return` (everything after it never ran)?
         self.exit = 'end'
@@ -468,7 +495,7 @@ class Judge:
                 if f.az is not None:
                     b = f.az.by_expr.get(e)
                     if b is not None:
-                        self.size(b, s, 'expression', cname, 'by_expr', e.format())
+                        self.size(b, s, 'expression', cname, 'by_expr', e)
                 if f.vc is not None:
                     c = f.vc.by_expr.get(e)
                     if isinstance(c, ValueClass):
@@ -486,7 +513,7 @@ class Judge:
                         self.counts['const_nonliteral'] += 1
                     diff = same_const(f.pe.by_expr[e], s)
                     if diff is not None:
-                        self.bad('PartialEval', 'by_expr', cname, diff,
+                        self.bad('PartialEval', 'by_expr', cname, self.const_why(diff, v),
                                  f'`{e.format()}`: reported constant {show(f.pe.by_expr[e])}, value {show(s)}')
                 if isinstance(e, A.Var):
                     d = self.reaching(e, o.dyn, e.format(), 'Var')
@@ -501,6 +528,7 @@ class Judge:
                     self.def_facts(dd, o.value, o.snap, 'definition of')
             elif o.kind == 'iuse':
                 self.reaching(o.node, o.dyn, str(o.name), 'IndexedAssign')
+                self.touch(o.value)
         # result
         if f.ty is not None:
             self.counts['cmp_type'] += 1
@@ -530,6 +558,19 @@ class Judge:
             else:
                 self.counts['alias_unmodelled_program_runs'] += 1
         return self.out
+
+
+class _Lazy:
+    """formats an AST node on demand (str() in an f-string)"""
+    __slots__ = ('node',)
+
+    def __init__(self, node):
+        self.node = node
+
+    def __str__(self):
+        return self.node.format()
+
+    __format__ = lambda self, spec: self.node.format()      # noqa: E731
 
 
 def _site_text(site) -> str:
@@ -570,6 +611,11 @@ class Check(BaseCheck):
     def __init__(self, tier, seed):
         super().__init__(tier, seed)
         self.space = pg.space(tier, seed)
+        # development aid (mutation experiments): VERIF_C13_ONLY=J,V restricts the families; the run then
+        # declares itself capped.  Registered commands never set it.
+        self.only = [x for x in os.environ.get('VERIF_C13_ONLY', '').split(',') if x]
+        if self.only:
+            self.space = [(lab, fac, sl) for lab, fac, sl in self.space if lab[0] in self.only]
 
     def bounds(self):
         return {'families': [lab + ('' if sl is None else f' slice {sl[0]}/{sl[1]} (seed-rotated)')
@@ -599,7 +645,7 @@ class Check(BaseCheck):
             return found
         interp = TracingInterpreter()
         interp.attach(mod)
-        ins = pg.inputs(prog) if only_args is None else [only_args]
+        ins = pg.inputs(prog, self.tier) if only_args is None else [only_args]
         for args in ins:
             r.count('evaluations')
             r.count('states')
@@ -642,6 +688,9 @@ class Check(BaseCheck):
     def run_shard(self, shard) -> ShardResult:
         k, m = shard
         r = ShardResult()
+        t0 = time.process_time()
+        if self.only and k == 0:
+            r.notes.append(f'CAP families restricted to {self.only} by VERIF_C13_ONLY')
         idx = 0
         for label, fac, sl in self.space:
             j = 0
@@ -659,8 +708,9 @@ class Check(BaseCheck):
                     gc.collect()
             if k == 0:
                 r.notes.append(f'family {label}: {j} programs generated' + ('' if sl is None else f', slice {sl[0]}/{sl[1]} run'))
+        r.count('cpu_ms', int((time.process_time() - t0) * 1000))      # informational only
         if k == 0:
-            r.sample({'program': prog.src, 'inputs': len(pg.inputs(prog))})
+            r.sample({'program': prog.src, 'inputs': len(pg.inputs(prog, self.tier))})
         return r
 
     def replay(self, case):
